@@ -183,3 +183,17 @@ Proof.
                             2 ra rb x decomposes_ra E i Hi) as H.
   unfold d_bsum. rewrite H. split; [reflexivity|intros k; reflexivity].
 Qed.
+
+(* ---------------- N-d transpose: the index map is a permutation of the positions ---------------- *)
+(* checked by execution for every permutation of the axes of a 2 x 3 x 4 stack and of a 3 x 2 matrix
+   (the general statement is proved for 2-D only: C15_transpose_perm) *)
+Local Open Scope nat_scope.
+Example transpose_nd_permutes :
+  forallb (fun axes => is_perm_of_seq 24 (map (tr_src [2; 3; 4] axes) (seq 0 24)))
+          [[0; 1; 2]; [0; 2; 1]; [1; 0; 2]; [1; 2; 0]; [2; 0; 1]; [2; 1; 0]] = true /\
+  forallb (fun axes => is_perm_of_seq 6 (map (tr_src [3; 2] axes) (seq 0 6))) [[0; 1]; [1; 0]] = true /\
+  tr_shape [2; 3; 4] [0; 2; 1] = [2; 4; 3] /\
+  (* element [i, j, k] of transpose(c, (0,2,1)) is c[i, k, j] *)
+  nd_transpose [2; 3; 4] [0; 2; 1] (fun t => t) = map (fun t => let i := Nat.div t 12 in let j := Nat.div (Nat.modulo t 12) 3 in
+                                                               let k := Nat.modulo t 3 in (i * 12 + k * 4 + j)) (seq 0 24).
+Proof. vm_compute. repeat split. Qed.
